@@ -81,7 +81,7 @@ func sizeBucket(n int) string {
 	}
 }
 
-var classes = []string{"noise", "twolevel", "runs", "eolruns", "ramp", "nearedge", "smooth", "const", "checker", "stripes"}
+var classes = []string{"noise", "twolevel", "runs", "eolruns", "ramp", "nearedge", "smooth", "const", "checker", "stripes", "halfjump"}
 
 // fill generates the samples of one image of the given class. near steers ramp steps and the
 // distance from the range ends.
@@ -108,6 +108,34 @@ func fill(rng *Rand, class string, w, h, comps, P, near int) []int {
 					if (x+y+c)&1 == 1 {
 						px[at(x, y, c)] = mv
 					}
+				}
+			}
+		}
+	case "halfjump":
+		// quiet dither (values base..base+2: contexts stay at k = 0 with a drifting bias) with isolated
+		// samples exactly half the range above or below their left neighbour: the error +-2^(P-1) sits on
+		// the modulo boundary, where an encoder/decoder pair must agree on the representative
+		half := (mv + 1) / 2
+		var base [3]int
+		for c := range base {
+			base[c] = rng.Intn(mv/2 + 1)
+		}
+		for y := 0; y < h; y++ {
+			for x := 0; x < w; x++ {
+				for c := 0; c < comps; c++ {
+					v := base[c] + rng.Intn(3)
+					if v > mv {
+						v = mv
+					}
+					if x > 0 && rng.Intn(23) == 0 {
+						left := px[at(x-1, y, c)]
+						if left+half <= mv {
+							v = left + half
+						} else if left-half >= 0 {
+							v = left - half
+						}
+					}
+					px[at(x, y, c)] = v
 				}
 			}
 		}
